@@ -60,6 +60,7 @@ conf() {
     C12) PKG=c12; RACE=1; QLIM=1500;;
     C13) PKG=c13;;
     C14) PKG=c14;;
+    C15) PKG=c15;;
     C16) PKG=c16;;
     C17) PKG=c17;;
     C18) PKG=c18;;
@@ -70,7 +71,7 @@ conf() {
   QT="${QT}"; return 0
 }
 
-ALL_IDS="C01 C02 C03 C04 C05 C06 C07 C08 C09 C10 C11 C12 C13 C14 C16 C17 C18 C19 C20"
+ALL_IDS="C01 C02 C03 C04 C05 C06 C07 C08 C09 C10 C11 C12 C13 C14 C15 C16 C17 C18 C19 C20"
 
 build_one() { # id -> builds $BIN
   conf "$1" || { echo "check.sh: unknown property $1" >&2; return 2; }
